@@ -46,11 +46,11 @@ valid = gen.valid_case
 def jobs(tier):
     if tier == 'quick':
         plan = [('json', 10, 4, 260), ('nested', 0, 0, 40), ('multiset', 8, 0, 50), ('xml', 5, 0, 40), ('csv', 0, 0, 25),
-                ('plist', 8, 0, 25), ('skewed', 6, 0, 40), ('padded', 0, 0, 30), ('builder', 10, 4, 60), ('pyobj', 8, 0, 40), ('growing', 0, 0, 40), ('dupsib', 0, 0, 60)]
+                ('plist', 8, 0, 25), ('skewed', 6, 0, 40), ('padded', 0, 0, 30), ('builder', 10, 4, 60), ('pyobj', 8, 0, 40), ('growing', 0, 0, 40), ('dupsib', 0, 0, 60), ('pickle', 8, 0, 30)]
         shards = 16
     else:
         plan = [('json', 25, 7, 6000), ('nested', 0, 0, 800), ('multiset', 10, 0, 1200), ('xml', 8, 0, 1000),
-                ('csv', 0, 0, 500), ('plist', 12, 0, 500), ('skewed', 8, 0, 800), ('padded', 0, 0, 600), ('builder', 20, 6, 1200), ('pyobj', 12, 0, 800), ('growing', 0, 0, 800), ('dupsib', 0, 0, 1000)]
+                ('csv', 0, 0, 500), ('plist', 12, 0, 500), ('skewed', 8, 0, 800), ('padded', 0, 0, 600), ('builder', 20, 6, 1200), ('pyobj', 12, 0, 800), ('growing', 0, 0, 800), ('dupsib', 0, 0, 1000), ('pickle', 12, 0, 500)]
         shards = 16
     js = []
     for s in range(shards):
@@ -79,6 +79,8 @@ def strategy_for(job):
         return gen.dup_sibling_cases()
     if fam == 'huge':
         return gen.huge_leaf_cases()
+    if fam == 'pickle':
+        return gen.pickle_cases(job['max_leaves'] or 8)
     if fam == 'multiset':
         return gen.multiset_cases(job['max_leaves'])
     if fam == 'xml':
@@ -160,7 +162,7 @@ def check(case):
     fam = case.get('family', 'json')
     with guard('build'):
         a, b = gen.build(case, 'a'), gen.build(case, 'b')
-    if fam == 'pyobj':
+    if fam in ('pyobj', 'pickle'):
         # no independent rendering of custom objects: the script is compared with the canonical value of the built trees
         ea, eb = plain(a), plain(b)
     else:
